@@ -206,7 +206,10 @@ class C20(Prop):
             'what later callbacks see; resume of the chained Deferred; has_no_result / succeeded(Always|Never|Equals) / failed(Always|Never|exception code); '
             'classify = the three classifying matchers on three replicas of the Deferred; extract_result; afterwards the Deferred is dropped and the Twisted '
             'log is checked for "Unhandled error in Deferred". Plus tests run with SynchronousDeferredRunTest that return / raise / return fired or unfired '
-            'Deferreds - in the test method or in setUp, optionally after registering a cleanup with positional and keyword arguments, which must have run with them. thorough adds every history of length <= 5 over a 14-operation alphabet and every history of length <= 3 over a 22-operation alphabet with the unusual values and exceptions. non-trivial = a history with a matcher or extract after at '
+            'Deferreds - in the test method, setUp, tearDown or a cleanup (an UNFIRED Deferred in the test method only), each exception kind (failure / error / skip) realised by 15 exception classes incl. '
+            'testtools\' and Twisted\'s own (DeferredNotFired, MismatchError, MultipleExceptions with one failure / one error / both / nothing, AlreadyCalledError, CancelledError, '
+            'TimeoutError, NoResultError, StaleJunkError, ReentryError: coming out of user code they are user exceptions - seed C20-f), raised or as the failure of a fired Deferred; besides the outcome the whole '
+            'event list must equal that of the same test doing the same thing directly under the plain RunTest; optionally after registering a cleanup with positional and keyword arguments, which must have run with them. thorough adds every history of length <= 5 over a 14-operation alphabet and every history of length <= 3 over a 22-operation alphabet with the unusual values and exceptions. non-trivial = a history with a matcher or extract after at '
             'least one other operation, or a runUser case with a Deferred; distinct = distinct input S-expression')
     assumptions = ['twisted.internet.defer.Deferred (callback chain, pausing on a returned Deferred, AlreadyCalledError, DebugInfo.__del__ logging '
                    '"Unhandled error in Deferred" exactly when the last result is a Failure) is modelled by TTV.Deferred.runCbs/add/fire/resume, not verified',
@@ -221,9 +224,13 @@ class C20(Prop):
                    'leaves its consumer attached - modelled); a test returning an unfired Deferred under SynchronousDeferredRunTest gets addSuccess and '
                    'DeferredNotFired escapes run() (modelled as outcome notFired); values whose __repr__ raises; has_no_result() does not mark a failure handled',
                    'garbage collection: the Deferred is dropped and gc.collect() is run inside the case; CPython reference counting semantics are assumed',
-                   'SynchronousDeferredRunTest: only the reported outcome kind is compared (not details or tracebacks)',
+                   'SynchronousDeferredRunTest: the model has three exception KINDS (by the outcome TestCase reports); which exception class realises a kind, in which '
+                   'stage, and the optional keyword cleanup are realisation hints the Lean codec ignores - that the unchanged runner treats every class alike is '
+                   'the tie C20_src_run_user (the errback _got_user_failure reports EVERY failure) plus the differential run against plain RunTest; only the '
+                   'sequence of result events is compared (not details or tracebacks); an unfired Deferred returned from setUp / tearDown / a cleanup is not '
+                   'modelled (no outcome + escape, addSuccess + escape, addError respectively - observed, outside the statement, which speaks of fired Deferreds)',
                    'translator tie: harness/pydeferred2lean.py reads on_deferred_result, the three matchers\' match + handlers, extract_result and '
-                   '_run_user as data (messages of Mismatch objects are not translated); TTV.DeferredSkel gives the data its meaning (trusted: that the '
+                   '_run_user with the errback _got_user_failure it installs as data (messages of Mismatch objects are not translated); TTV.DeferredSkel gives the data its meaning (trusted: that the '
                    'interpreter reads the recognised statement forms as Python does); unrecognised statements become .unknown']
 
     manifest = {
@@ -233,7 +240,7 @@ class C20(Prop):
                 'three classifying matchers matches; matching never fires and is invisible to every later operation and callback except that succeeded/failed '
                 'turn an inspected failure into a handled one (so it is not logged at collection, while has_no_result leaves it); extract_result returns the '
                 'value, raises the exception or raises DeferredNotFired; SynchronousDeferredRunTest reports an already-fired Deferred like the direct '
-                'return/raise. Tied to the code (a) by theorems C20_src_* proving that matchOp / extractOp / runUser ARE the interpretation of the case '
+                'return/raise, in every stage and for every exception class incl. the framework\'s own. Tied to the code (a) by theorems C20_src_* proving that matchOp / extractOp / runUser ARE the interpretation of the case '
                 'splits and handlers re-read from _deferred.py, _matchers.py and _runtest.py on every run, (b) by a differential check against real '
                 'twisted Deferreds incl. the unhandled-error log after gc.',
         'note': 'trusted: Lean kernel, the model TTV/Model/Deferred.lean, the harness; Twisted\'s Deferred (chaining, pausing, DebugInfo logging) is '
@@ -288,64 +295,120 @@ class C20(Prop):
             gc.enable()
         return ['history', obs, seen, called, logged]
 
+    #: exception classes a user's code can raise / fail a Deferred with, by the outcome TestCase reports for them (the model's ExcKind).  Besides
+    #: the obvious ones: testtools' and Twisted's OWN exception classes - for the runner they are user exceptions like any other when they come
+    #: out of user code (seed C20-f: DeferredNotFired coming from the user taken for the runner's own complaint)
+    EXC_VARIANTS = {'failure': ['assert', 'mismatch', 'multi-failure', 'multi-error-and-failure'],
+                    'error': ['value', 'DeferredNotFired', 'AlreadyCalledError', 'CancelledError', 'TimeoutError', 'NoResultError', 'StaleJunkError',
+                              'ReentryError', 'multi-error', 'multi-empty'],
+                    'skip': ['skip']}
+    STAGES = ['body', 'setUp', 'tearDown', 'cleanup']
+
+    def make_exc(self, case, kind, variant):
+        import sys, unittest
+        from twisted.internet import defer
+        from testtools.twistedsupport._deferred import DeferredNotFired
+        from testtools.twistedsupport._spinner import NoResultError, StaleJunkError, ReentryError
+        from testtools.runtest import MultipleExceptions
+        from testtools.matchers import MismatchError, Equals
+
+        def ei(e):
+            try:
+                raise e
+            except Exception:
+                return sys.exc_info()
+        table = {'assert': lambda: case.failureException('x'), 'mismatch': lambda: MismatchError(1, Equals(2), Equals(2).match(1)),
+                 'multi-failure': lambda: MultipleExceptions(ei(case.failureException('m'))),
+                 'multi-error-and-failure': lambda: MultipleExceptions(ei(ValueError('m')), ei(case.failureException('n'))),
+                 'value': lambda: ValueError('x'), 'DeferredNotFired': lambda: DeferredNotFired(defer.Deferred()),
+                 'AlreadyCalledError': lambda: defer.AlreadyCalledError(), 'CancelledError': lambda: defer.CancelledError(),
+                 'TimeoutError': lambda: defer.TimeoutError(), 'NoResultError': lambda: NoResultError(), 'StaleJunkError': lambda: StaleJunkError([]),
+                 'ReentryError': lambda: ReentryError('f'), 'multi-error': lambda: MultipleExceptions(ei(ValueError('m'))),
+                 'multi-empty': lambda: MultipleExceptions(), 'skip': lambda: unittest.SkipTest('why')}
+        if variant not in self.EXC_VARIANTS[kind]:
+            variant = self.EXC_VARIANTS[kind][0]
+        return table[variant]()
+
     def impl_run_user(self, beh, hint=None):
-        """hint = [stage, cleanup]: stage 'body' | 'setUp' = which stage behaves like `beh` (the other one is trivial); cleanup 'kw' = a
-        cleanup taking positional and keyword arguments is registered first (addCleanup(f, 1, key=2)) and must have run, with exactly those
-        arguments, when run() is over - whatever the stage did"""
-        stage, cleanup = hint or ['body', 'none']
-        calls = []
-        import unittest
+        """hint = [stage, cleanup, variant]: stage 'body' | 'setUp' | 'tearDown' | 'cleanup' = which stage behaves like `beh` (the others are
+        trivial); cleanup 'kw' = a cleanup taking positional and keyword arguments is registered first (addCleanup(f, 1, key=2)) and must
+        have run, with exactly those arguments, when run() is over - whatever the stage did; variant = which exception class realises the
+        behaviour's exception kind (EXC_VARIANTS).  Besides the outcome (the trace) the whole event list is compared with that of the SAME
+        test doing the same thing DIRECTLY (returning the value / raising the exception) under the plain RunTest: "as if it had returned or
+        raised directly" on the real objects."""
+        hint = list(hint or ['body', 'none']) + [None]
+        stage, cleanup, variant = hint[:3]
         import testtools
         from twisted.internet import defer
+        from testtools.runtest import RunTest
         from testtools.twistedsupport import SynchronousDeferredRunTest
         from testtools.twistedsupport._deferred import DeferredNotFired
         from testtools.testresult.doubles import ExtendedTestResult
 
-        def exc(case, kind):
-            return {'failure': case.failureException('x'), 'error': ValueError('x'), 'skip': unittest.SkipTest('why')}[kind]
+        def one(runner, direct):
+            calls = []
 
-        def body(case):
-            if beh == 'returnsUnfired':
-                return defer.Deferred()
-            if beh[0] == 'returns':
-                return pyval(beh[1])
-            if beh[0] == 'raises':
-                raise exc(case, beh[1])
-            _, k, v = beh
-            return defer.succeed(pyval(v)) if k is None else defer.fail(exc(case, k[1]))
+            def body(case):
+                if beh == 'returnsUnfired':
+                    return defer.Deferred()
+                if beh[0] == 'returns':
+                    return pyval(beh[1])
+                if beh[0] == 'raises':
+                    raise self.make_exc(case, beh[1], variant)
+                _, k, v = beh
+                if direct:      # the corresponding return / raise
+                    if k is None:
+                        return pyval(v)
+                    raise self.make_exc(case, k[1], variant)
+                return defer.succeed(pyval(v)) if k is None else defer.fail(self.make_exc(case, k[1], variant))
 
-        def behave(case):
-            if cleanup == 'kw':
-                case.addCleanup(lambda *a, **k: calls.append((a, sorted(k.items()))), 1, key=2)
-            return body(case)
+            class T(testtools.TestCase):
+                run_tests_with = runner
 
-        class T(testtools.TestCase):
-            run_tests_with = SynchronousDeferredRunTest
+                def setUp(self):
+                    super().setUp()
+                    if cleanup == 'kw':
+                        self.addCleanup(lambda *a, **k: calls.append((a, sorted(k.items()))), 1, key=2)
+                    if stage == 'cleanup':
+                        self.addCleanup(body, self)
+                    if stage == 'setUp':
+                        return body(self)
 
-            def setUp(self):
-                super().setUp()
-                if stage == 'setUp':
-                    return behave(self)
+                def test(self):
+                    if stage == 'body':
+                        return body(self)
 
-            def test(self):
-                if stage == 'body':
-                    return behave(self)
-        r = ExtendedTestResult()
-        raised = None
-        try:
-            T('test').run(r)
-        except DeferredNotFired:
-            raised = 'DeferredNotFired'
+                def tearDown(self):
+                    super().tearDown()
+                    if stage == 'tearDown':
+                        return body(self)
+            r = ExtendedTestResult()
+            raised = None
+            try:
+                T('test').run(r)
+            except DeferredNotFired:
+                raised = 'DeferredNotFired'
+            return [e[0] for e in r._events], raised, calls
+        def outcome(ev, raised):
+            if ev[:1] != ['startTest'] or ev[-1:] != ['stopTest'] or len(ev) != 3:
+                return ['bad-bracket'] + ev
+            kind = {'addSuccess': 'success', 'addFailure': ['reported', 'failure'], 'addError': ['reported', 'error'],
+                    'addSkip': ['reported', 'skip']}.get(ev[1], ['unexpected', ev[1]])
+            if raised:
+                return 'notFired' if kind == 'success' else ['raised-and', raised, ev[1]]
+            return kind
+        ev, raised, calls = one(SynchronousDeferredRunTest, False)
         if cleanup == 'kw' and calls != [((1,), [('key', 2)])]:
             return ['runUser', ['keyword-cleanup-not-run-as-registered', len(calls)]]
-        ev = [e[0] for e in r._events]
-        if ev[:1] != ['startTest'] or ev[-1:] != ['stopTest'] or len(ev) != 3:
-            return ['runUser', ['bad-bracket'] + ev]
-        kind = {'addSuccess': 'success', 'addFailure': ['reported', 'failure'], 'addError': ['reported', 'error'],
-                'addSkip': ['reported', 'skip']}.get(ev[1], ['unexpected', ev[1]])
-        if raised:
-            return ['runUser', 'notFired' if kind == 'success' else ['raised-and', raised, ev[1]]]
-        return ['runUser', kind]
+        res = outcome(ev, raised)
+        if beh != 'returnsUnfired':
+            dev, draised, _ = one(RunTest, True)
+            declared = ['reported', self.exc_kind(beh)] if self.exc_kind(beh) else 'success'
+            if outcome(dev, draised) != declared:       # the harness's own table of exception classes is wrong
+                return ['runUser', ['vocabulary-error', str(variant), 'direct'] + dev]
+            if (ev, raised) != (dev, draised) and res == declared:
+                return ['runUser', ['differs-from-doing-it-directly', stage] + ev + ['raised', str(raised), 'direct'] + dev]
+        return ['runUser', res]
 
     # ------------------------------------------------------------------ generators
     VALS = [None, ['num', 0], ['num', 1], ['num', 2], ['num', 7], ['pair', ['num', 1], None], ['pair', ['pair', None, ['num', 3]], ['num', 1]]]
@@ -423,8 +486,8 @@ class C20(Prop):
     def gen(self, rng, tier):
         if rng.random() < 0.08:
             beh = rng.choice(self.BEHS)
-            stage = 'setUp' if beh != 'returnsUnfired' and rng.random() < 0.4 else 'body'
-            return ['runUser', beh, [stage, rng.choice(['kw', 'kw', 'none'])]]
+            stage = 'body' if beh == 'returnsUnfired' else rng.choice(self.STAGES)
+            return ['runUser', beh, [stage, rng.choice(['kw', 'kw', 'none'])] + self.variants_of(beh, rng)]
         return ['history', self.g_history(rng)]
 
     ALPHABET = [['fire', ['ok', ['num', 1]]], ['fire', ['ok', None]], ['fire', ['fail', 0]],
@@ -438,12 +501,26 @@ class C20(Prop):
         ['fire', ['ok', ['sym', 0]]], ['fire', ['ok', ['sym', 1]]], ['fire', ['ok', ['sym', 4]]], ['fire', ['fail', 3]], ['fire', ['fail', 4]], ['fire', ['fail', 5]],
         ['add', ['cb', ['ret', ['ok', ['sym', 3]], False], ['ret', ['ok', ['sym', 2]], True], ['probe', 1]]], ['match', ['succeeded', 'always']], ['resume', ['ok', ['sym', 0]]]]
 
+    def exc_kind(self, beh):
+        if isinstance(beh, list) and beh[0] == 'raises':
+            return beh[1]
+        if isinstance(beh, list) and beh[0] == 'returnsFired' and beh[1]:
+            return beh[1][1]
+        return None
+
+    def variants_of(self, beh, rng):
+        k = self.exc_kind(beh)
+        return [rng.choice(self.EXC_VARIANTS[k])] if k else []
+
     def enumerate(self, tier):
         for b in self.BEHS:
             yield ['runUser', b]
-            for stage in ('body', 'setUp'):
-                if not (stage == 'setUp' and b == 'returnsUnfired'):
+            for stage in self.STAGES:
+                if stage == 'body' or b != 'returnsUnfired':        # (an unfired Deferred from setUp / tearDown / a cleanup: not modelled)
                     yield ['runUser', b, [stage, 'kw']]
+                    # every exception class of the behaviour's kind, in every stage, raised and as the failure of a fired Deferred
+                    for v in (self.EXC_VARIANTS[self.exc_kind(b)] if self.exc_kind(b) else []):
+                        yield ['runUser', b, [stage, 'none', v]]
         for n in range(1, 4):
             for ops in itertools.product(self.ALPHABET_WEIRD, repeat=n):
                 if any('sym' in str(op) or "'fail', 3" in str(op) or "'fail', 4" in str(op) or "'fail', 5" in str(op) for op in ops):
@@ -469,6 +546,10 @@ class C20(Prop):
             f = ['kind:runUser', 'runUser:' + (inp[1] if isinstance(inp[1], str) else inp[1][0] + ('-failed' if inp[1][0] == 'returnsFired' and inp[1][1] else ''))]
             if len(inp) > 2:
                 f += ['runUser:stage=' + inp[2][0], 'runUser:cleanup=' + inp[2][1]]
+                if len(inp[2]) > 2:
+                    f += ['runUser:exception=' + inp[2][2], 'runUser:%s:%s:%s' % (inp[2][0], inp[1][0], inp[2][2])]
+                if self.exc_kind(inp[1]) is None and inp[1] != 'returnsUnfired':
+                    f.append('runUser:%s:%s' % (inp[2][0], inp[1][0]))
             return f
         ops = inp[1]
         f = ['kind:history', 'len=%s' % (len(ops) if len(ops) < 7 else '7+')]
@@ -509,6 +590,14 @@ class C20(Prop):
         return f
 
     def shrink(self, inp):
+        if inp[0] == 'runUser' and len(inp) > 2:
+            stage, cleanup = inp[2][:2]
+            if cleanup != 'none':
+                yield ['runUser', inp[1], [stage, 'none'] + inp[2][2:]]
+            if stage != 'body':
+                yield ['runUser', inp[1], ['body', cleanup] + inp[2][2:]]
+            if isinstance(inp[1], list) and inp[1][0] == 'returnsFired' and inp[1][1]:
+                yield ['runUser', ['raises', inp[1][1][1]], inp[2]]
         if inp[0] != 'history':
             return
         ops = inp[1]
